@@ -422,6 +422,28 @@ func Extras() []*Term {
 		setStr(setStr(mk("WithTelemetry2", mk("GoNew", nil)).FillDefault(), "WithTelemetry2", "key1", "dup"), "WithTelemetry2", "key2", "dup"),
 	}
 	ts = append(ts, codeSweepExtras()...)
+	// two errors of the same non-comparable dynamic type side by side
+	ts = append(ts,
+		mk("CombineErrors", mk("ut.NCLeaf", nil), mk("ut.NCLeaf", nil)).FillDefault(),
+		mk("WithSecondaryError", mk("ut.NCLeaf", nil), mk("ut.NCLeaf", nil)).FillDefault(),
+		mk("Wrapf_e", mk("ut.NCLeaf", nil), mk("ut.NCLeaf", nil)).FillDefault(),
+		mk("Join2", mk("ut.NCLeaf", nil), mk("ut.NCLeaf", nil)).FillDefault(),
+		mk("Handled", mk("CombineErrors", mk("ut.NCLeaf", nil), mk("ut.NCLeaf", nil))).FillDefault(),
+	)
+	// a mark whose reference is itself marked with a foreign error
+	ts = append(ts,
+		mk("Mark", mk("GoNew", nil), mk("Mark", mk("New", nil), mk("GoNew", nil))).FillDefault(),
+		mk("Wrap", mk("Mark", mk("New", nil), mk("Mark", mk("New", nil), mk("ut.PtrLeaf", nil)))).FillDefault(),
+		mk("Mark", mk("Mark", mk("GoNew", nil), mk("io.EOF", nil)), mk("os.ErrNotExist", nil)).FillDefault(),
+	)
+	// stdlib leaves that merely have the TEXT of a well-known sentinel
+	for _, st := range []string{"context deadline exceeded", "context canceled", "EOF", "unexpected EOF", "file does not exist", "permission denied", "i/o timeout"} {
+		ts = append(ts,
+			setStr(mk("GoNew", nil).FillDefault(), "GoNew", "msg", st),
+			setStr(mk("Wrap", mk("GoNew", nil)).FillDefault(), "GoNew", "msg", st),
+			setStr(mk("GoErrorf_w", mk("GoNew", nil)).FillDefault(), "GoNew", "msg", st),
+		)
+	}
 	// long chains (more than 32 and more than 64 layers)
 	ts = append(ts,
 		chain(17, "Wrap", mk("New", nil)).FillDefault(),
